@@ -6,9 +6,10 @@ From DictIO Require Import Chars Str Value Scalar KeyPath SDict.
 Import ListNotations.
 Open Scope N_scope.
 
-(* ---- str.splitlines(keepends=True) for code points < 128 -------------------------------------- *)
+(* ---- str.splitlines(keepends=True): LF CR VT FF FS GS RS NEL LS PS ----------------------------- *)
 Definition is_linebreak (c : cp) : bool :=
-  (c =? c_lf) || (c =? c_cr) || (c =? c_vt) || (c =? c_ff) || (c =? 28) || (c =? 29) || (c =? 30).
+  (c =? c_lf) || (c =? c_cr) || (c =? c_vt) || (c =? c_ff) || (c =? 28) || (c =? 29) || (c =? 30)
+  || (c =? 133) || (c =? 8232) || (c =? 8233).
 Fixpoint splitlines_go (cur : str) (s : str) : list str :=
   match s with
   | [] => match cur with [] => [] | _ => [rev cur] end
